@@ -744,6 +744,8 @@ class Ref(object):
       self.finish(outs, exp_outs, events, in_port, "C12", "packet-out",
                   "packet_out in_port=%#x actions %s" % (in_port, acts))
       self.sim.probes["packet_out_data"] += 1
+    elif st.get("badact") is not None:
+      self.refused_buffer_use(st, xid, in_port, acts)
     else:
       bid = self.resolve_buffer(st["buffer"])
       rs = self.roundtrip(W.enc_packet_out(xid, bid, in_port, acts))
@@ -757,6 +759,49 @@ class Ref(object):
       self.after_buffer_use(bid, acts, errs, "packet_out")
     self.no_more_packet_ins("packet_out")
     self.sync()
+
+  def refused_buffer_use(self, st, xid, in_port, acts):
+    """a packet_out that names a buffer and whose action list holds an
+    action of a type the switch has no handler for (after the actions in
+    `acts`).  Whether anything of the list is carried out before it is
+    refused is not specified (the model follows the implementation's
+    transmissions); but a held packet that WAS sent out has been released:
+    its id must not be good for a second emission."""
+    import struct
+    mdl = self.model
+    bid = self.resolve_buffer(st["buffer"])
+    bad = ("raw", struct.pack("!HHL", st["badact"], 8, 0x2320))
+    wire = list(acts) + [bad] if st.get("badpos", 1) else [bad] + list(acts)
+    raw = W.enc_packet_out(xid, bid, in_port, wire)
+    rs = self.roundtrip(raw)
+    errs = [d for d in rs if d["type"] == W.ERROR and d["xid"] == xid]
+    if len(errs) != 1 or [d for d in rs if d not in errs]:
+      self.dev("C13", "packet-out/refused-reply", "packet_out with an "
+               "unknown action answered with %r" % ([d["name"] for d in rs],))
+    outs = self.world.take_out()
+    self.drop_pending_events()
+    for port, data in outs:
+      if port in mdl.tx:
+        mdl.tx[port][0] += 1
+        mdl.tx[port][1] += len(data)
+    if bid not in mdl.buffers:
+      self.sim.probes["buffer_bogus"] += 1
+      if outs:
+        self.dev("C18", "buffer/bogus-emits", "refused packet_out naming "
+                 "unknown/used buffer %d emitted %d frame(s)"
+                 % (bid, len(outs)))
+      return
+    store = self.world.switch._packet_buffer
+    held = 0 < bid <= len(store) and store[bid - 1] is not None
+    self.sim.probes["buffer_use_refused"] += 1
+    if outs and held:
+      self.dev("C18", "buffer/emitted-and-kept", "packet_out with buffer %d "
+               "was refused after %d frame(s) of the held packet had been "
+               "sent, and the packet is still held under that id"
+               % (bid, len(outs)))
+    if not held:
+      mdl.buffers.pop(bid)
+      self.used_buffers.append(bid)
 
   def op_port_mod(self, st):
     mdl = self.model
